@@ -152,6 +152,13 @@ Theorem C10_daemon_liveness_policy : forall (c : cfg) (s : hst) (ok : bool), c_d
 Proof. exact daemon_liveness_restart. Qed.
 Print Assumptions C10_daemon_liveness_policy.
 
+(* the trace that the (repaired) model produces for ANY event list of a non-daemon process passes the very
+   monitor that the check evaluates on the implementation's traces (F11b excluded by f11b_free) *)
+Theorem C10_process_monitor : forall (c : cfg) (ops : list hop),
+  c_daemon c = false -> c_fixed c = true -> f11b_free c = true -> holds_h (model_case c ops) = true.
+Proof. exact holds_h_model_nd. Qed.
+Print Assumptions C10_process_monitor.
+
 (* non-vacuity: concrete histories that meet the hypotheses above *)
 Example C10_example :
   (* threshold 0 is replaced by 3; F F F F S F: fatal exactly at the third failure *)
